@@ -89,7 +89,27 @@ def close(a, b, tol=1e-9):
     return abs(a - b) <= tol * max(1.0, abs(a), abs(b))
 
 
-MUTATING_SEM = {"CvKnotRemove", "CvDegreeDecrease", "CvClean", "CvSetKnotvector"}
+MUTATING_SEM = {"CvKnotRemove", "CvDegreeDecrease", "CvClean", "CvSetKnotvector", "CvFitCurve", "CvFitPoints"}
+
+
+class CallTimeout(Exception):
+    pass
+
+
+def with_timeout(fn, seconds):
+    """run fn() under SIGALRM (main thread of a worker process)"""
+    import signal
+
+    def handler(signum, frame):
+        raise CallTimeout(f"call did not return within {seconds}s")
+
+    old = signal.signal(signal.SIGALRM, handler)
+    signal.alarm(seconds)
+    try:
+        return fn()
+    finally:
+        signal.alarm(0)
+        signal.signal(signal.SIGALRM, old)
 PURE_SEM = {"CvJoin", "CvArith", "CvScalar"}
 
 
@@ -387,6 +407,118 @@ class Replayer:
     def do_CvSetKnotvector(self, live, a):
         live[a["obj"]].knotvector = self.mode.nums(a["kv"])
 
+    # ---- module-level memo tables (C10) ----
+    MEMO_ATTRS = {"nodes_cheby": ("NodeSample", "_NodeSample__cheby"), "nodes_gauss": ("NodeSample", "_NodeSample__gauss"),
+                  "w_closed": ("IntegratorArray", "_IntegratorArray__closed_newton"),
+                  "w_open": ("IntegratorArray", "_IntegratorArray__open_newton"),
+                  "w_cheby": ("IntegratorArray", "_IntegratorArray__cheby"),
+                  "w_gauss": ("IntegratorArray", "_IntegratorArray__gauss")}
+
+    def memo_tables(self):
+        """name -> the private dict, where still reachable (None after a refactoring)"""
+        import compmec.nurbs.heavy as heavy
+        out = {}
+        for k, (cls, attr) in self.MEMO_ATTRS.items():
+            d = getattr(getattr(heavy, cls, None), attr, None)
+            out[k] = d if isinstance(d, dict) else None
+        return out
+
+    def enable_memo_reset(self):
+        tabs = self.memo_tables()
+        self._memo_init = {k: dict(v) for k, v in tabs.items() if v is not None} if all(
+            v is not None for v in tabs.values()) else None
+        self.reset_memo = True
+
+    def reset_module_state(self):
+        if not getattr(self, "reset_memo", False):
+            return
+        if self._memo_init is not None:
+            tabs = self.memo_tables()
+            for k, init in self._memo_init.items():
+                tabs[k].clear()
+                tabs[k].update(init)
+        else:  # tables moved: fall back to re-executing the module
+            import importlib
+            import compmec.nurbs.heavy as heavy
+            importlib.reload(heavy)
+
+    def rule_fn(self, fn):
+        import compmec.nurbs.heavy as heavy
+        N, I = heavy.NodeSample, heavy.IntegratorArray
+        return {"nodes_closed": N.closed_linspace, "nodes_open": N.open_linspace, "nodes_cheby": N.chebyshev,
+                "nodes_gauss": N.gauss_legendre, "w_closed": I.closed_newton_cotes, "w_open": I.open_newton_cotes,
+                "w_cheby": I.chebyshev, "w_gauss": I.gauss_legendre}[fn]
+
+    def do_MemoRequest(self, live, a):
+        return {"val": tuple(self.rule_fn(a["fn"])(a["n"]))}
+
+    def do_KvGen(self, live, a):
+        G = self.lib.GeneratorKnotVector
+        cls = {"fraction": Fraction, "int": int, "float": float, "numpy.float64": float}[self.mode.name]
+        k = a["kind"]
+        if k == "bezier":
+            kv = G.bezier(a["p"], cls)
+        elif k == "integer":
+            kv = G.integer(a["p"], a["n"], cls)
+        elif k == "uniform":
+            kv = G.uniform(a["p"], a["n"], cls)
+        else:
+            kv = G.weight(a["p"], self.mode.nums(a["w"]))
+        live[a["obj"]] = kv
+
+    def do_CvDerivate(self, live, a):
+        from compmec.nurbs.calculus import Derivate
+        return {"D": Derivate(live[a["obj"]])}
+
+    def do_CvIntegrate(self, live, a):
+        from compmec.nurbs.calculus import Integrate
+        return {"I": Integrate.scalar(live[a["obj"]])}
+
+    def do_CvFitCurve(self, live, a):
+        S = live[a["obj"]]
+        C = self.curve_from(a["other"])
+        snap = self.project(C)
+        nodes = self.mode.nums(a["nodes"]) if a["nodes"] else None
+        err = S.fit_curve(C, nodes) if nodes is not None else S.fit_curve(C)
+        return {"err": err, "other_unchanged": self.project(C) == snap}
+
+    def do_CvFitPoints(self, live, a):
+        S = live[a["obj"]]
+        data = self.mode.nums(a["data"])
+        if a["dflt"]:
+            S.fit_points(data)
+        else:
+            S.fit_points(data, self.mode.nums(a["nodes"]))
+
+    def do_CvFitFunction(self, live, a):
+        S = live[a["obj"]]
+        src = self.curve_from(a["src"])
+        S.fit_function(lambda u: src(u))
+
+    def polyline(self, c):
+        import numpy as np
+        U = [float(fr(x)) for x in c["U"]]
+        pts = [np.array([float(fr(x)), float(fr(y))]) for x, y in zip(c["X"], c["Y"])]
+        return self.Curve(U, pts)
+
+    def do_GeoProject(self, live, a):
+        import numpy as np
+        from compmec.nurbs.advanced import Projection
+        C = self.polyline(a["curve"])
+        snap = (tuple(C.knotvector), [tuple(p) for p in C.ctrlpoints])
+        P = (float(fr(a["px"])), float(fr(a["py"])))
+        r = with_timeout(lambda: Projection.point_on_curve(P, C), 20)
+        return {"params": r, "C": C, "P": P,
+                "unchanged": snap == (tuple(C.knotvector), [tuple(p) for p in C.ctrlpoints])}
+
+    def do_GeoIntersect(self, live, a):
+        from compmec.nurbs.advanced import Intersection
+        A, B = self.polyline(a["A"]), self.polyline(a["B"])
+        snap = lambda c: (tuple(c.knotvector), [tuple(p) for p in c.ctrlpoints])
+        sa, sb = snap(A), snap(B)
+        r = with_timeout(lambda: Intersection.curve_and_curve(A, B), 30)
+        return {"pairs": r, "A": A, "B": B, "unchanged": sa == snap(A) and sb == snap(B)}
+
     # ---------------------------------------------------------------- comparison
     def compare(self, live, t, cls, val, exc):
         """returns list of failure descriptions (empty = conforms)"""
@@ -448,6 +580,22 @@ class Replayer:
             fails.append("result: curve without control points")
             return
         act = {k: v for k, v in a.items() if k not in ("obj", "other", "form")}
+        if name == "CvFitCurve":
+            if cls != "ok":
+                fails.append("fit_curve raised")
+                return
+            try:
+                err = rat(val["err"]) if not isinstance(val["err"], float) else rat(Fraction(val["err"]))
+            except TypeError:
+                err = rat(Fraction(float(val["err"])))
+            act = {"name": name, "kv": t["pre"][a["obj"]]["U"], "nodes": a["nodes"], "err": err}
+            c = b
+            b = None
+        if name == "CvFitPoints":
+            if cls != "ok":
+                return
+            pre = t["pre"][a["obj"]]
+            act = {"name": name, "kv": pre["U"], "weights": pre["W"], "nodes": a["nodes"], "data": a["data"]}
         self.validator.add(act, c=c, b=b, d=d, cls=cls, tag=t)
 
     def cmp_CvJoin(self, live, t, val):
@@ -515,6 +663,138 @@ class Replayer:
                 f.append(f"denominator of a polynomial curve: got {den!r}, spec 1")
         elif not self.same_obj(self.project(den), dict(want[1], kind="cv")):
             f.append(f"denominator: got {self.project(den)}, spec {want[1]}")
+        return f
+
+    def cmp_MemoRequest(self, live, t, val):
+        f = []
+        a = t["act"]
+        got = val["val"]
+        want = t["ret"]["val"]
+        if want:  # rational family: the rule itself is specified
+            try:
+                g = [rat(x) for x in got]
+            except TypeError:
+                return [f"{a['fn']}({a['n']}): inexact numbers {got}"]
+            if g != [list(w) for w in want]:
+                f.append(f"{a['fn']}({a['n']}): got {got}, spec {[str(fr(w)) for w in want]}")
+        canon = self.canon_rule(a["fn"], a["n"])
+        if tuple(got) != tuple(canon):
+            f.append(f"{a['fn']}({a['n']}) depends on the call history: got {got}, first-call value {canon}")
+        tabs = self.memo_tables()
+        if t.get("mpost") and all(v is not None for v in tabs.values()):
+            for k, keys in t["mpost"].items():
+                if sorted(tabs[k].keys()) != sorted(keys):
+                    f.append(f"memo table {k}: keys {sorted(tabs[k].keys())}, spec {sorted(keys)}")
+        return f
+
+    def canon_rule(self, fn, n):
+        """value of the rule on a pristine module state (computed once per key, then the state is restored)"""
+        cache = self.__dict__.setdefault("_canon", {})
+        if (fn, n) not in cache:
+            tabs = self.memo_tables()
+            saved = {k: dict(v) for k, v in tabs.items() if v is not None}
+            self.reset_module_state()
+            cache[(fn, n)] = tuple(self.rule_fn(fn)(n))
+            for k, v in saved.items():
+                tabs[k].clear()
+                tabs[k].update(v)
+        return cache[(fn, n)]
+
+    def cmp_KvGen(self, live, t, val):
+        f = []
+        kv = live[t["act"]["obj"]]
+        a = t["act"]
+        if a["kind"] in ("bezier", "uniform"):
+            lo, hi = kv.limits
+            if not (lo == 0 and hi == 1):
+                f.append(f"limits of {a['kind']} are {kv.limits}, not exactly (0, 1)")
+        if self.mode.name == "fraction":
+            bad = [x for x in kv if not isinstance(x, (int, Fraction)) or isinstance(x, bool)]
+            if bad or (a["kind"] != "weight" and not all(isinstance(x, Fraction) for x in kv)):
+                f.append(f"cls=Fraction produced {sorted({type(x).__name__ for x in kv})} knots")
+        return f
+
+    def cmp_CvDerivate(self, live, t, val):
+        f = []
+        D = val["D"]
+        c = live[t["act"]["obj"]]
+        if tuple(float(x) for x in D.knotvector.limits) != tuple(float(x) for x in c.knotvector.limits):
+            f.append(f"interval of the derivative {D.knotvector.limits} differs from {c.knotvector.limits}")
+        for u, want in t["ret"]["val"]:
+            uu = self.mode.num(u)
+            try:
+                got = D(uu)
+            except Exception as e:
+                f.append(f"D({uu}) raised {type(e).__name__}: {e}")
+                break
+            w = float(fr(want))
+            if not abs(float(got) - w) <= 1e-9 * max(1.0, abs(w)):
+                f.append(f"D({uu}): got {float(got)!r}, spec {w!r}")
+        return f
+
+    def cmp_CvIntegrate(self, live, t, val):
+        ok, msg = self._point_ok(val["I"], t["ret"]["val"])
+        return [] if ok else [f"integral: {msg}"]
+
+    def cmp_CvFitCurve(self, live, t, val):
+        return [] if val["other_unchanged"] else ["source curve modified"]
+
+    def cmp_GeoProject(self, live, t, val):
+        import numpy as np
+        f = []
+        r, C, P = val["params"], val["C"], np.array(val["P"])
+        want = t["ret"]["val"]
+        lo, hi = (float(x) for x in C.knotvector.limits)
+        if not isinstance(r, tuple) or len(r) == 0:
+            return [f"result {r!r} is not a non-empty tuple"]
+        r = [float(x) for x in r]
+        if any(not (lo - 1e-12 <= x <= hi + 1e-12) for x in r):
+            f.append(f"parameter outside [{lo}, {hi}]: {r}")
+        if r != sorted(r):
+            f.append(f"parameters not sorted: {r}")
+        ds = [float(np.linalg.norm(C(x) - P)) for x in r]
+        dmin = float(fr(want["d2"])) ** 0.5
+        if max(ds) - min(ds) > 1e-6:
+            f.append(f"returned parameters are not equidistant: {ds}")
+        if abs(min(ds) - dmin) > 1e-6:
+            f.append(f"distance {min(ds)!r} is not the minimum {dmin!r}")
+        ws = [float(fr(x)) for x in want["us"]]
+        for w in ws:
+            if not any(abs(w - x) <= 1e-6 for x in r):
+                f.append(f"nearest parameter {w} missing from {r}")
+        for x in r:
+            if not any(abs(w - x) <= 1e-6 for w in ws):
+                f.append(f"returned parameter {x} is not a nearest-point parameter {ws}")
+        if not val["unchanged"]:
+            f.append("curve modified")
+        return f
+
+    def cmp_GeoIntersect(self, live, t, val):
+        import numpy as np
+        f = []
+        want = t["ret"]["val"]
+        pairs, A, B = val["pairs"], val["A"], val["B"]
+        if not val["unchanged"]:
+            f.append("operand modified")
+        pairs = [(float(a), float(b)) for a, b in pairs]
+        la, ha = (float(x) for x in A.knotvector.limits)
+        lb, hb = (float(x) for x in B.knotvector.limits)
+        for (a, b) in pairs:
+            if not (la <= a <= ha and lb <= b <= hb):
+                f.append(f"pair {(a, b)} outside the parameter intervals")
+            elif float(np.linalg.norm(A(a) - B(b))) > 1e-6:
+                f.append(f"pair {(a, b)}: curves do not meet there (distance {float(np.linalg.norm(A(a) - B(b)))!r})")
+        for i, p in enumerate(pairs):
+            for q in pairs[:i]:
+                if abs(p[0] - q[0]) < 1e-9 and abs(p[1] - q[1]) < 1e-9:
+                    f.append(f"duplicate pair {p}")
+        if want["inclass"]:
+            ws = [(float(fr(a)), float(fr(b))) for a, b in want["pairs"]]
+            for w in ws:
+                if not any(abs(w[0] - p[0]) <= 1e-6 and abs(w[1] - p[1]) <= 1e-6 for p in pairs):
+                    f.append(f"crossing {w} not reported (got {pairs})")
+            if not ws and pairs:
+                f.append(f"curves do not meet but {pairs} returned")
         return f
 
     def check_obs(self, obj, obs, want):
@@ -733,14 +1013,15 @@ class Replayer:
 
 
 # ------------------------------------------------------------------------------------
-def state_key(heap, depth):
-    return json.dumps([heap, depth], sort_keys=True)
+def state_key(heap, depth, memo=None):
+    m = None if memo is None else {k: sorted(v) for k, v in memo.items()}
+    return json.dumps([heap, depth, m], sort_keys=True)
 
 
 def _paths(records):
     parent = {}
     for t in records:
-        k = state_key(t["post"], t["d"])
+        k = state_key(t["post"], t["d"], t.get("mpost"))
         if k not in parent or (parent[k]["ret"]["class"] != "ok" and t["ret"]["class"] == "ok"):
             parent[k] = t
     return parent
@@ -749,14 +1030,15 @@ def _paths(records):
 def _replay_one(t, parent, replayer):
     # path from an initial state to t.pre
     path = []
-    heap, d = t["pre"], t["d"] - 1
+    heap, d, memo = t["pre"], t["d"] - 1, t.get("mpre")
     while d > 0:
-        p = parent.get(state_key(heap, d))
+        p = parent.get(state_key(heap, d, memo))
         if p is None:
             raise core.MachineryError("transition log has no path to a pre-state")
         path.append(p)
-        heap, d = p["pre"], d - 1
+        heap, d, memo = p["pre"], d - 1, p.get("mpre")
     live = replayer.build(heap)
+    replayer.reset_module_state()
     saved = replayer.validator
     replayer.validator = None  # the steps of the history are judged when they are the target
     try:
